@@ -112,7 +112,9 @@ def gen_params(rng, dim, with_precision=False, moderate=False):
                 continue
             if lb < ub:
                 break
-        p = {"name": "x%d" % i, "bounds": [lb, ub]}
+        # declaration order is NOT the alphabetical order of the names (the generators that go through a dict keyed by
+        # name must still scale column i with the bounds of the i-th declared parameter)
+        p = {"name": "%s%d" % ("wqhdzkbpxm"[i % 10], i), "bounds": [lb, ub]}
         if with_precision and rng.random() < 0.35 and ub - lb < 1e7:
             # a precision coarser than the range is a configuration error (designs land far outside a box that
             # is narrower than the rounding step); the statement's "coarse precision" is coarse w.r.t. 1e-12
